@@ -200,6 +200,7 @@ func ruleC07(c *Ctx, r *Report) {
 		return
 	}
 	p := c.prov()
+	tableNilMapRule(c, r, "C07-R1")
 	scope := c.pkgReach(an.StreamFn)
 	// the progress bar helper is not line-content dependent but is on the path: keep it
 	var fns []*ssa.Function
